@@ -23,7 +23,7 @@ TOL = {True: 1e-5, False: 2e-3}
 # ------------------------------------------------------------------------------------------------ scenarios
 
 SLOTS = ["labile", "unknown", "nterm", "cterm", "internal0", "internalL", "interval", "staticAA", "staticN", "staticC"]
-KINDS = [("num", None), ("formula", "C2H3"), ("formula", "[13C2]N"), ("formula", "H-2O"), ("glycan", "Hex2"),
+KINDS = [("num", None), ("formula", "C2H3"), ("formula", "[13C2]N"), ("formula", "H-2O"), ("formula", "C2H2[13C2]H2O"), ("formula", "[13C2]H3N[13C]"), ("glycan", "Hex2"),
          ("glycan", "HexNAc2Hex3"), ("unimod", "Acetyl"), ("unimod", "U:Oxidation"), ("unimod", "UNIMOD:1")]
 SEQS_Q = ["P", "PE", "PEP", "GASP"]
 SEQS_T = ["P", "PE", "PEP", "GASP", "KVKAW", "MMRMQY"]
